@@ -73,8 +73,9 @@ class TimeOpts(NativeModel):
 
 
 class Wn(NativeModel):
-    def __init__(self, g, sim_time, prev, duration, rts, max_trials, name="net", option_hyd_step=None):
+    def __init__(self, g, sim_time, prev, duration, rts, max_trials, name="net", option_hyd_step=None, iso_flags=False):
         self.ghost = g
+        self.iso_flags = iso_flags     # "sym": the stored isolation flag of the generic junction / link is arbitrary; False: not isolated
         self.sim_time = sim_time
         self._prev_sim_time = prev
         self.name = name
@@ -89,7 +90,8 @@ class Wn(NativeModel):
         cache = self.__dict__.setdefault("_generic_cache", {})
         if what not in cache:
             p = self.ghost.path
-            cache[what] = (p.fresh(what + "_name", "name"), types.SimpleNamespace(_is_isolated=p.fresh(what + "_is_isolated", "bool")))
+            flag = p.fresh(what + "_is_isolated", "bool") if self.iso_flags == "sym" else False
+            cache[what] = (p.fresh(what + "_name", "name"), types.SimpleNamespace(_is_isolated=flag))
         return cache[what]
 
     def junctions(self):
@@ -380,7 +382,7 @@ def _variant(interp, env):
     return (a, b)
 
 
-def _case(start, report, conv_err, backup, hyd_mode):
+def _case(start, report, conv_err, backup, hyd_mode, iso_flags=False):
     cfg = dict(g=[None], sim=[None], results=[None])
 
     def build(cx):
@@ -411,7 +413,7 @@ def _case(start, report, conv_err, backup, hyd_mode):
         cx.assume(cx.t(h0) >= 1)
         if hyd_mode != "sym":
             cx.assume(cx.t(h0) >= ht)         # the effective step is never larger than the configured one
-        wn = Wn(g, st, pv, dur, rts, mt, option_hyd_step=h0)
+        wn = Wn(g, st, pv, dur, rts, mt, option_hyd_step=h0, iso_flags=iso_flags)
         g.tank_time = 0 if start == "fresh" else pv      # initial levels / the heads of the last solved step
         res = Results(g)
         cfg["results"][0] = res
@@ -432,7 +434,8 @@ def _case(start, report, conv_err, backup, hyd_mode):
                       (res.error_code is wntr.sim.results.ResultsStatus.error and g.warned) if g.failed else res.error_code is None)]
             return posts
         cx.ensure(post)
-    return Case("start=%s,report=%s,convergence_error=%s,backup=%s,hyd=%s" % (start, report, conv_err, backup, hyd_mode), build, crosscheck=False), cfg
+    return Case("start=%s,report=%s,convergence_error=%s,backup=%s,hyd=%s%s" % (start, report, conv_err, backup, hyd_mode, ",stored_isolation_flags=any" if iso_flags else ""),
+                build, crosscheck=False), cfg
 
 
 def _mk():
@@ -445,7 +448,9 @@ def _mk():
                     for hm in (3600, "sym"):
                         if hm == "sym" and (conv_err or backup):
                             continue
-                        case, cfg = _case(start, report, conv_err, backup, hm)
+                        # stored isolation flags arbitrary in one configuration per start kind (they only matter to the entry code)
+                        iso = "sym" if (report == "ALL" and not conv_err and not backup and hm == 3600) else False
+                        case, cfg = _case(start, report, conv_err, backup, hm, iso)
                         contracts.append(Contract(
                             QN, P, [case], models=_models(cfg),
                             loop_specs={(QN, "test:True"): _mk_loop(cfg)},
